@@ -114,19 +114,27 @@ def _one_event(seed: int) -> dict:
     flat: list = []  # returned odfdo objects, flattened
     owner = table
     try:
+        # a position inside the table may also be given from the end (negative), resolved against the TABLE's size
+        nx = x - w if x < w and rng.random() < 0.3 else x
+        ny = y - h if y < h and rng.random() < 0.3 else y
         if name == "get_cell":
             g.update(x=x, y=y)
-            o = table.get_cell((x, y))
+            if rng.random() < 0.5:
+                # the single-position form: the copy carries no repeat count
+                g.update(expand=True)
+                o = table.get_cell((nx, ny), keep_repeated=False)
+            else:
+                o = table.get_cell((nx, ny))
             got = [cell_h(o)]
             flat = [o]
         elif name == "get_row":
             g.update(y=y)
-            o = table.get_row(y)
+            o = table.get_row(ny)
             got = [row_h(o)]
             flat = [o]
         elif name == "get_column":
             g.update(x=x)
-            o = table.get_column(x)
+            o = table.get_column(nx)
             got = [col_h(o)]
             flat = [o]
         elif name in ("get_cells", "cells"):
@@ -159,7 +167,7 @@ def _one_event(seed: int) -> dict:
             flat = list(res)
         elif name == "get_column_cells":
             g.update(x=x)
-            res = table.get_column_cells(x)
+            res = table.get_column_cells(nx)
             got = [cell_h(c) for c in res]
             flat = list(res)
         else:
